@@ -658,7 +658,34 @@ static void run_xor(void)
         uint64_t lens[MAXSTR]; int kinds[MAXSTR];
         for (int i = 0; i < npl; i++) { lens[i] = pl[i] * (uint64_t)g->k - (i % 3 == 1 ? 3 : 0); kinds[i] = i % 4 == 2 ? DATA_HIGH : DATA_RANDOM; }
         ctx_t x;
-        if (ctx_open(&x, &c, lens, kinds, npl) == 0) {
+        /* an instance of the PREVIOUS table (another shape) stays alive across the creation of this one and is used again
+         * afterwards: the tables of one descriptor are its own */
+        static int keep_desc = -1; static cfg_t keep_c; static stripe_t keep_st; static uint8_t *keep_data;
+        int opened = ctx_open(&x, &c, lens, kinds, npl) == 0;
+        if (keep_desc > 0) {
+            if (mon_case_all("%s|used-again-after-%s-was-created", "older-table", x.ck)) {
+                int kn = keep_c.k + keep_c.m; rng_t r; rng_seed(&r, MO.seed, (uint64_t)t * 31 + 7);
+                for (int q = 0; q < 24; q++) {
+                    int perm[32]; for (int i = 0; i < kn; i++) perm[i] = i; rng_shuffle(&r, perm, keep_c.k);       /* data indexes first */
+                    int lose = 1 + q % (keep_c.hd - 1); uint32_t er = mask_of(perm, lose);
+                    if (q % 3 == 2 && lose >= 2) er = (er & ~(1u << perm[0])) | 1u << (keep_c.k + q % keep_c.m);
+                    char *lst[32]; int cnt = 0; for (int f = 0; f < kn; f++) if (!(er >> f & 1)) lst[cnt++] = (char *)keep_st.frag[f];
+                    char *out = NULL; uint64_t ol = 0; int rc = liberasurecode_decode(keep_desc, lst, cnt, keep_st.flen, q & 1, &out, &ol);
+                    mon_count("evaluations", 1); mon_count("older_table_decodes_after_another_table_was_created", 1);
+                    if (rc != 0 || ol != keep_st.len || memcmp(out, keep_data, keep_st.len)) { mon_viol("C05", "older-instance-broken-by-newer-table", "flat-XOR (%d,%d,%d) instance decoding erasures 0x%x after a (%d,%d,%d) instance was created: rc=%d%s", keep_c.k, keep_c.m, keep_c.hd, er, g->k, g->m, g->hd, rc, rc ? "" : ", wrong bytes"); if (rc == 0) liberasurecode_decode_cleanup(keep_desc, out); break; }
+                    liberasurecode_decode_cleanup(keep_desc, out);
+                    int dest = __builtin_ctz(er); uint8_t *o = malloc(keep_st.flen);
+                    rc = liberasurecode_reconstruct_fragment(keep_desc, lst, cnt, keep_st.flen, dest, (char *)o);
+                    if (rc != 0 || memcmp(o, keep_st.frag[dest], keep_st.flen)) { mon_viol("C05", "older-instance-broken-by-newer-table", "flat-XOR (%d,%d,%d) instance reconstructing %d (erasures 0x%x) after a (%d,%d,%d) instance was created: rc=%d", keep_c.k, keep_c.m, keep_c.hd, dest, er, g->k, g->m, g->hd, rc); free(o); break; }
+                    free(o);
+                }
+                mon_end();
+            }
+            stripe_free(&keep_st); free(keep_data); liberasurecode_instance_destroy(keep_desc); keep_desc = -1;
+        }
+        if (opened) {
+            { keep_c = c; keep_desc = lec_create(&keep_c); uint64_t kl = (uint64_t)c.k * 20 + 3; keep_data = malloc(kl); rng_t r; rng_seed(&r, MO.seed, (uint64_t)t + 900); rng_fill(&r, keep_data, kl);
+              if (keep_desc <= 0 || stripe_make(&keep_st, keep_desc, &keep_c, keep_data, kl) != 0) { if (keep_desc > 0) liberasurecode_instance_destroy(keep_desc); free(keep_data); keep_desc = -1; } }
             /* parity == XOR of the data the golden equation names (also part of ctx_open's model compare) */
             for (int si = 0; si < x.nstr; si++) {
                 if (mon_case("%s|len=%llu|parity-equations", x.ck, (unsigned long long)x.st[si].len)) {
@@ -1334,6 +1361,180 @@ static void run_isal_faults(void)
     }
 }
 
+/* ================================================================ long runs of calls on one thread and instance
+ * (C01 / C03 / C04 each end with it).  Whatever the library keeps between calls - counters, generation stamps, caches - gets
+ * more than 2^16 consecutive decode and reconstruct calls of a few fixed erasure patterns; fragment 1 is listed as lost in
+ * the very first call only and fragment 3 only in the second, so a stamp that comes round after 2^8 or 2^16 calls meets a
+ * call in which that fragment is supplied.  Every call is judged byte for byte. */
+static void run_long_sequence(void)
+{
+    static const cfg_t cf[] = { { EC_BACKEND_LIBERASURECODE_RS_VAND, 4, 2, 2, 0, CHKSUM_CRC32 }, { EC_BACKEND_FLAT_XOR_HD, 10, 5, 3, 0, CHKSUM_NONE }, { EC_BACKEND_LIBERASURECODE_RS_VAND, 10, 4, 4, 0, CHKSUM_NONE },
+                                { EC_BACKEND_ISA_L_RS_VAND, 4, 2, 2, 0, CHKSUM_CRC32 }, { EC_BACKEND_JERASURE_RS_VAND, 4, 2, 2, 0, CHKSUM_NONE }, { EC_BACKEND_FLAT_XOR_HD, 6, 6, 4, 0, CHKSUM_CRC32 } };
+    noise_stop();
+    for (size_t ci = 0; ci < sizeof cf / sizeof cf[0]; ci++) {
+        cfg_t c = cf[ci];
+        if ((int)(ci % (size_t)(MO.nshards > 0 ? MO.nshards : 1)) != MO.shard) continue;
+        if (!liberasurecode_backend_available((ec_backend_id_t)c.be)) continue;
+        char ck[96]; cfg_key(&c, ck, sizeof ck);
+        if (!mon_case_all("%s|long-sequence-of-calls", ck)) continue;
+        int d = lec_create(&c); int n = c.k + c.m;
+        uint64_t len = (uint64_t)c.k * 8 + 3; uint8_t *data = malloc(len); rng_t r; rng_seed(&r, MO.seed, 5150 + ci); rng_fill(&r, data, len);
+        stripe_t st;
+        if (d <= 0 || stripe_make(&st, d, &c, data, len) != 0) { mon_viol(PROP, "setup-failed", "long sequence: create/encode failed"); if (d > 0) liberasurecode_instance_destroy(d); free(data); mon_end(); continue; }
+        long N = MO.thorough ? 200000 : 70000, bad = 0;
+        uint8_t *o = malloc(st.flen);
+        for (long i = 0; i < N && bad < 3; i++) {
+            uint32_t er;
+            if (i == 0) er = 1u << 1; else if (i == 1) er = 1u << 3 | 1u;
+            else { static const int pat[4][2] = { { 0, -1 }, { 0, 1000 }, { 2, -1 }, { 1000, 2 } }; const int *q = pat[i % 4]; er = 0; for (int j = 0; j < 2; j++) if (q[j] >= 0) er |= 1u << (q[j] == 1000 ? n - 1 : q[j]); }
+            char *lst[32]; int cnt = 0; for (int f = 0; f < n; f++) if (!(er >> f & 1)) lst[cnt++] = (char *)st.frag[f];
+            if (i & 1) {
+                char *out = NULL; uint64_t ol = 0; int rc = liberasurecode_decode(d, lst, cnt, st.flen, 0, &out, &ol);
+                if (rc != 0 || ol != len || memcmp(out, data, len)) { mon_viol(PROP, "long-sequence-decode-wrong", "call #%ld on one instance (erased 0x%x): decode rc=%d%s", i, er, rc, rc ? "" : ", wrong bytes"); bad++; }
+                if (rc == 0) liberasurecode_decode_cleanup(d, out);
+            } else {
+                int dest = __builtin_ctz(er);
+                int rc = liberasurecode_reconstruct_fragment(d, lst, cnt, st.flen, dest, (char *)o);
+                if (rc != 0 || memcmp(o, st.frag[dest], st.flen)) { mon_viol(PROP, "long-sequence-reconstruct-wrong", "call #%ld on one instance (erased 0x%x): reconstruct(%d) rc=%d%s", i, er, dest, rc, rc ? "" : ", wrong fragment"); bad++; }
+            }
+        }
+        mon_count("evaluations", N); mon_count("long_sequence_calls", N);
+        mon_distinct("nontrivial", mon_hash_str(ck, 5150));
+        free(o); stripe_free(&st); free(data); liberasurecode_instance_destroy(d);
+        mon_end();
+    }
+}
+
+/* ================================================================ instance churn (end of C01 / C02 / C03)
+ * (a) instances of different shapes whose internal tables have the same byte size, created right after one another's
+ *     destruction while a third instance keeps the backend library loaded: on the plain build the allocator hands the new
+ *     instance the block the old one just freed, so anything keyed by an address meets another owner;
+ * (b) the backend library unloaded (last instance gone) and loaded again while an instance of ANOTHER backend was created or
+ *     destroyed in between, so that the library may come back at another address.
+ * Every instance encodes its own object and decodes / reconstructs it with the same two erasure lists. */
+static int churn_use(const cfg_t *c, int d, uint64_t seed, const char *what)
+{
+    int n = c->k + c->m; uint64_t len = (uint64_t)c->k * 24 + 5; uint8_t *data = malloc(len); rng_t r; rng_seed(&r, MO.seed, seed); rng_fill(&r, data, len);
+    stripe_t st; int ok = 1;
+    cfg_use(c);
+    if (stripe_make(&st, d, c, data, len) != 0) { mon_viol(PROP, "churn-encode-failed", "%s: encode failed", what); free(data); return 0; }
+    uint8_t *exp[64]; uint64_t ef = model_fragment_len(c, len);
+    for (int f = 0; f < n; f++) exp[f] = malloc(ef);
+    model_stripe(c, data, len, 0, exp);
+    if (c->be != EC_BACKEND_NULL) for (int f = 0; f < n && ok; f++) if (ef != st.flen || memcmp(exp[f], st.frag[f], ef)) { mon_viol(PROP, "churn-encode-differs-from-model", "%s: fragment %d differs from the model", what, f); ok = 0; }
+    for (int f = 0; f < n; f++) free(exp[f]);
+    int tol = cfg_tol(c);
+    /* the first and the last call of every instance use the same erasure list (so that the next instance's first call repeats
+     * the previous instance's last) */
+    for (int e = 0; e < 3 && ok && c->be != EC_BACKEND_NULL; e++) {
+        uint32_t er = e == 1 ? 1u : (tol >= 2 && c->k >= 2 ? 3u : 1u);
+        if (tol < 1) break;
+        char *lst[32]; int cnt = 0; for (int f = 0; f < n; f++) if (!(er >> f & 1)) lst[cnt++] = (char *)st.frag[f];
+        char *out = NULL; uint64_t ol = 0; int rc = liberasurecode_decode(d, lst, cnt, st.flen, 0, &out, &ol);
+        if (rc != 0 || ol != len || memcmp(out, data, len)) { mon_viol(PROP, "churn-decode-wrong", "%s: decode (erased 0x%x) rc=%d%s", what, er, rc, rc ? "" : ", wrong bytes"); ok = 0; }
+        if (rc == 0) liberasurecode_decode_cleanup(d, out);
+        uint8_t *o = malloc(st.flen); rc = liberasurecode_reconstruct_fragment(d, lst, cnt, st.flen, 0, (char *)o);
+        if (rc != 0 || memcmp(o, st.frag[0], st.flen)) { mon_viol(PROP, "churn-reconstruct-wrong", "%s: reconstruct(0) (erased 0x%x) rc=%d", what, er, rc); ok = 0; }
+        free(o);
+    }
+    mon_count("evaluations", 5); mon_count("churn_instance_uses", 1);
+    stripe_free(&st); free(data);
+    return ok;
+}
+
+#include <link.h>
+#include <sys/mman.h>
+typedef struct { const char *name; uintptr_t lo, hi; } libspan_t;
+static int libspan_cb(struct dl_phdr_info *info, size_t size, void *data)
+{
+    (void)size; libspan_t *l = data;
+    if (!info->dlpi_name || !strstr(info->dlpi_name, l->name)) return 0;
+    for (int i = 0; i < info->dlpi_phnum; i++) if (info->dlpi_phdr[i].p_type == PT_LOAD) {
+        uintptr_t a = info->dlpi_addr + info->dlpi_phdr[i].p_vaddr, b = a + info->dlpi_phdr[i].p_memsz;
+        if (!l->lo || a < l->lo) l->lo = a;
+        if (b > l->hi) l->hi = b;
+    }
+    return 0;
+}
+/* the backend's shared object comes back somewhere else: once its last instance is gone (object unmapped), the address range it
+ * occupied is taken by an inaccessible mapping before the next instance is created */
+static void churn_relocated_library(int be, const char *soname, const cfg_t *c)
+{
+    if (!liberasurecode_backend_available((ec_backend_id_t)be)) return;
+    if (!mon_case_all("%s|library-comes-back-at-another-address", be_name(be))) return;
+    int d = lec_create(c);
+    if (d <= 0) { mon_viol(PROP, "churn-create-failed", "rc=%d", d); mon_end(); return; }
+    churn_use(c, d, 11, "instance before the library is unloaded");
+    libspan_t sp = { soname, 0, 0 }; dl_iterate_phdr(libspan_cb, &sp);
+    liberasurecode_instance_destroy(d);
+    libspan_t after = { soname, 0, 0 }; dl_iterate_phdr(libspan_cb, &after);
+    void *blk = MAP_FAILED;
+    if (sp.lo && !after.lo) {
+        uintptr_t lo = sp.lo & ~(uintptr_t)4095, hi = (sp.hi + 4095) & ~(uintptr_t)4095;
+        blk = mmap((void *)lo, hi - lo, PROT_NONE, MAP_PRIVATE | MAP_ANONYMOUS | MAP_NORESERVE | MAP_FIXED_NOREPLACE, -1, 0);
+        if (blk != MAP_FAILED && (uintptr_t)blk != lo) { munmap(blk, hi - lo); blk = MAP_FAILED; }
+        mon_count(blk != MAP_FAILED ? "libraries_forced_to_another_address" : "library_range_could_not_be_occupied", 1);
+        d = lec_create(c);
+        if (d <= 0) mon_viol(PROP, "churn-create-failed", "create of %s after its library was unloaded and its address range occupied: rc=%d", be_name(be), d);
+        else {
+            libspan_t now = { soname, 0, 0 }; dl_iterate_phdr(libspan_cb, &now);
+            if (now.lo && now.lo != sp.lo) mon_count("libraries_seen_at_another_address", 1);
+            churn_use(c, d, 12, "instance created after the backend library came back at another address");
+            liberasurecode_instance_destroy(d);
+        }
+        if (blk != MAP_FAILED) munmap(blk, hi - lo);
+    } else mon_count("library_not_unloaded_with_its_last_instance", 1);
+    mon_distinct("nontrivial", mon_hash_u64((uint64_t)be, 618));
+    mon_end();
+}
+
+static void run_instance_churn(void)
+{
+    noise_stop();
+    if (MO.shard != 0) return;
+    static const int pairs[][4] = { {4, 2, 3, 5}, {6, 2, 4, 8}, {2, 2, 1, 7}, {6, 4, 5, 7}, {9, 3, 4, 23}, {5, 2, 4, 5}, {3, 5, 4, 2} };
+    static const int bes[] = { EC_BACKEND_LIBERASURECODE_RS_VAND, EC_BACKEND_ISA_L_RS_VAND, EC_BACKEND_ISA_L_RS_CAUCHY, EC_BACKEND_JERASURE_RS_VAND };
+    for (size_t bi = 0; bi < sizeof bes / sizeof bes[0]; bi++) {
+        if (!liberasurecode_backend_available((ec_backend_id_t)bes[bi])) continue;
+        if (!mon_case_all("%s|same-size-shapes-in-turn", be_name(bes[bi]))) continue;
+        cfg_t kc = { bes[bi], 10, 4, 4, 0, CHKSUM_NONE }; int keeper = lec_create(&kc);
+        for (int round = 0; round < (MO.thorough ? 40 : 8); round++) for (size_t pi = 0; pi < sizeof pairs / sizeof pairs[0]; pi++) for (int half = 0; half < 2; half++) {
+            cfg_t c = { bes[bi], pairs[pi][half * 2], pairs[pi][half * 2 + 1], pairs[pi][half * 2 + 1], 0, (round & 1) ? CHKSUM_CRC32 : CHKSUM_NONE };
+            int d = lec_create(&c); char what[128]; snprintf(what, sizeof what, "%s (%d,%d) created right after a same-size shape was destroyed, round %d", be_name(c.be), c.k, c.m, round);
+            if (d <= 0) { mon_viol(PROP, "churn-create-failed", "%s: rc=%d", what, d); continue; }
+            churn_use(&c, d, (uint64_t)pi * 7 + (uint64_t)half, what);
+            if (liberasurecode_instance_destroy(d) != 0) mon_viol(PROP, "churn-destroy-failed", "%s", what);
+        }
+        if (keeper > 0) { churn_use(&kc, keeper, 99, "the instance that stayed alive throughout"); liberasurecode_instance_destroy(keeper); }
+        mon_distinct("nontrivial", mon_hash_u64((uint64_t)bes[bi], 616));
+        mon_end();
+    }
+    { cfg_t c1 = { EC_BACKEND_LIBERASURECODE_RS_VAND, 4, 2, 2, 0, CHKSUM_CRC32 }; churn_relocated_library(c1.be, "liberasurecode_rs_vand.so", &c1);
+      cfg_t c2 = { EC_BACKEND_FLAT_XOR_HD, 10, 5, 3, 0, CHKSUM_CRC32 }; churn_relocated_library(c2.be, "libXorcode.so", &c2);
+      cfg_t c3 = { EC_BACKEND_ISA_L_RS_VAND, 4, 2, 2, 0, CHKSUM_CRC32 }; churn_relocated_library(c3.be, "libisal.so", &c3);
+      cfg_t c4 = { EC_BACKEND_SHSS, 4, 2, 2, 0, CHKSUM_CRC32 }; churn_relocated_library(c4.be, "libshss.so", &c4);
+      cfg_t c5 = { EC_BACKEND_LIBPHAZR, 4, 2, 1, 0, CHKSUM_CRC32 }; churn_relocated_library(c5.be, "libphazr.so", &c5);
+      cfg_t c6 = { EC_BACKEND_NULL, 4, 2, 2, 0, CHKSUM_NONE }; churn_relocated_library(c6.be, "libnullcode.so", &c6); }
+    /* (b) library unloaded and loaded again around the life of an instance of another backend */
+    static const int b2[] = { EC_BACKEND_LIBERASURECODE_RS_VAND, EC_BACKEND_FLAT_XOR_HD, EC_BACKEND_ISA_L_RS_VAND, EC_BACKEND_JERASURE_RS_VAND, EC_BACKEND_SHSS };
+    static const int others[] = { EC_BACKEND_NULL, EC_BACKEND_FLAT_XOR_HD, EC_BACKEND_LIBERASURECODE_RS_VAND };
+    for (size_t bi = 0; bi < sizeof b2 / sizeof b2[0]; bi++) for (size_t oi = 0; oi < 3; oi++) for (int order = 0; order < 2; order++) {
+        if (!liberasurecode_backend_available((ec_backend_id_t)b2[bi]) || b2[bi] == others[oi]) continue;
+        if (!mon_case_all("%s|library-reloaded-around-%s|order=%d", be_name(b2[bi]), be_name(others[oi]), order)) continue;
+        cfg_t c = { b2[bi], b2[bi] == EC_BACKEND_FLAT_XOR_HD ? 10 : 4, b2[bi] == EC_BACKEND_FLAT_XOR_HD ? 5 : 2, b2[bi] == EC_BACKEND_FLAT_XOR_HD ? 3 : 2, 0, CHKSUM_CRC32 };
+        cfg_t oc = { others[oi], others[oi] == EC_BACKEND_FLAT_XOR_HD ? 5 : 4, others[oi] == EC_BACKEND_FLAT_XOR_HD ? 5 : 2, others[oi] == EC_BACKEND_FLAT_XOR_HD ? 3 : 2, 0, CHKSUM_NONE };
+        int o1 = order == 0 ? lec_create(&oc) : -1;              /* order 0: the other backend is loaded first and unloaded in between */
+        int d = lec_create(&c); if (d > 0) { churn_use(&c, d, 1, "first instance of the backend"); liberasurecode_instance_destroy(d); }
+        if (order == 0) { if (o1 > 0) liberasurecode_instance_destroy(o1); o1 = -1; } else o1 = lec_create(&oc);
+        d = lec_create(&c);
+        if (d <= 0) mon_viol(PROP, "churn-create-failed", "second instance of %s after its library was unloaded: rc=%d", be_name(c.be), d);
+        else { churn_use(&c, d, 2, "instance created after the backend library was unloaded and loaded again"); liberasurecode_instance_destroy(d); }
+        if (o1 > 0) liberasurecode_instance_destroy(o1);
+        mon_distinct("nontrivial", mon_hash_u64((uint64_t)(bi * 8 + oi * 2) + (uint64_t)order, 617));
+        mon_end();
+    }
+}
+
 /* ================================================================ main */
 int main(int argc, char **argv)
 {
@@ -1345,10 +1546,10 @@ int main(int argc, char **argv)
     if (need_isal && !isal_available()) { mon_logf("HARNESS reference libisal.so.2 not loadable"); mon_finish(); return 2; }
     lec_env_legacy(0);
     if (MO.noise) noise_start();
-    if (!strcmp(PROP, "C01")) run_roundtrip(isal_available() ? 3 : 1);
-    else if (!strcmp(PROP, "C02")) run_nosilent(1);
-    else if (!strcmp(PROP, "C03")) run_reconstruct(1);
-    else if (!strcmp(PROP, "C04")) run_canonical();
+    if (!strcmp(PROP, "C01")) { run_roundtrip(isal_available() ? 3 : 1); run_long_sequence(); run_instance_churn(); }
+    else if (!strcmp(PROP, "C02")) { run_nosilent(1); run_instance_churn(); }
+    else if (!strcmp(PROP, "C03")) { run_reconstruct(1); run_long_sequence(); run_instance_churn(); }
+    else if (!strcmp(PROP, "C04")) { run_canonical(); run_long_sequence(); }
     else if (!strcmp(PROP, "C05")) run_xor();
     else if (!strcmp(PROP, "C06")) run_needed(1);
     else if (!strcmp(PROP, "C20")) run_force(isal_available() ? 3 : 1);
